@@ -1,7 +1,7 @@
 (* C06 — property theorems (statements only; proofs by [exact] of lemmas in Proofs*.v). *)
 From Coq Require Import ZArith QArith List String.
 From OMV Require Import Base.Val C06.Model C06.GenUnitLib C06.Lib
-     C06.Proofs C06.ProofsNames C06.ProofsFind C06.ProofsLib.
+     C06.Proofs C06.ProofsNames C06.ProofsFind C06.ProofsSimplify C06.ProofsDim C06.ProofsLib.
 Import ListNotations.
 Open Scope Q_scope.
 
@@ -65,12 +65,11 @@ Theorem C06_prefix_factor : forall (t : table) (item : string) (pf : Q) (bu : un
 Proof. exact prefix_factor. Qed.
 Print Assumptions C06_prefix_factor.
 
-(* PARTIAL towards "simplify preserves the denotation": for every table whose entries are named by
-   table names carrying their factor (the shipped library is, see C06_library_wf), every unit that
-   evaluating an expression with non-zero literals produces has exactly the factor that its names
-   dictionary -- what name() prints -- denotes.  (The same statement for the powers, and the
-   evaluation of the printed name back to that product, are not proved: the repaired simplify_unit
-   checks them at run time, see C06_simplify_fixed_sound.) *)
+(* The names dictionary -- what name() prints -- is a faithful bookkeeping of the factor: for every
+   table whose entries are named by table names carrying their factor (the shipped library is, see
+   C06_library_wf), every unit that evaluating an expression with non-zero literals produces has
+   exactly the factor its names dictionary denotes.  (Kept under its earlier name; the statement
+   it was partial for is C06_simplify_preserves_dimension_and_factor below.) *)
 Theorem C06_eval_names_denote_factor_partial :
   forall (pi : option Q) (t : table) (e : expr) (u : unit) (o : option nat),
   table_named t -> (forall p, pi = Some p -> ~ p == 0) -> lits_nz e ->
@@ -104,3 +103,34 @@ Theorem C06_library_wf :
   lib_wf lib = true.
 Proof. exact library_wf. Qed.
 Print Assumptions C06_library_wf.
+
+(* simplify preserves the denotation (dimension and factor): for EVERY table whose entries have N
+   powers and are named by table names of the same factor and dimension, and EVERY expression with
+   non-zero literals: whenever the name that name() prints for the unit the expression evaluates to
+   evaluates to a unit again, that unit has exactly the same powers and the same factor.
+   (Two things remain run-time checks of the repaired simplify_unit, C06_simplify_fixed_sound: that the
+   printed name evaluates to a unit at all -- it can be a bare number or raise, see
+   C06_simplify_present_refuted -- and the offset.) *)
+Theorem C06_simplify_preserves_dimension_and_factor :
+  forall (N : nat) (t : table) (e : expr) (u : unit) (o : option nat) (u' : unit) (o' : option nat),
+  table_named t -> table_dim N t -> lits_nz e ->
+  eval None t e = Ok (PUnit u o) ->
+  eval None t (name_expr u) = Ok (PUnit u' o') ->
+  u_powers u' = u_powers u /\ u_factor u' == u_factor u.
+Proof. exact name_evaluates_to_same_unit. Qed.
+Print Assumptions C06_simplify_preserves_dimension_and_factor.
+
+(* the two table invariants hold for the shipped library (C06_library_wf) and are kept by every
+   prefix expansion of _find_unit, i.e. for every table reachable by look-ups *)
+Theorem C06_prefix_expansion_keeps_invariants :
+  forall (N : nat) (t : table) (item : string) (pf : Q) (bu : unit) (i : nat) (t' : table),
+  table_named t -> table_dim N t ->
+  tbl_get t item = None -> (exists s, tbl_get t s = Some (i, bu)) ->
+  ~ pf == 0 -> add_prefixed t item pf bu = Ok t' ->
+  table_named t' /\ table_dim N t'.
+Proof. exact add_prefixed_keeps_invariants. Qed.
+Print Assumptions C06_prefix_expansion_keeps_invariants.
+
+Theorem C06_library_invariants : table_named (l_tbl lib) /\ table_dim (l_nbase lib) (l_tbl lib).
+Proof. exact (conj lib_named lib_dim). Qed.
+Print Assumptions C06_library_invariants.
